@@ -234,3 +234,10 @@ m("c14-retry-loop-on-unreadable-file", "C14", 1, [("src/gm2_slha_io.cpp",
    "   std::ifstream ifs(file_name);\n   if (ifs.good()) {\n      data.clear();\n      data.read(ifs);\n   } else {\n      throw EReadError(\"cannot read input file: \\\"\" + file_name + \"\\\"\");\n   }",
    "   // network file systems: the file may appear a moment later\n   for (;;) {\n      std::ifstream ifs(file_name);\n      if (ifs.good()) {\n         data.clear();\n         data.read(ifs);\n         return;\n      }\n      if (file_name.empty()) {\n         throw EReadError(\"cannot read input file: \\\"\" + file_name + \"\\\"\");\n      }\n      WARNING(\"cannot open \\\"\" << file_name << \"\\\", retrying\");\n   }")],
   "unbounded retry loop (with calls and output) when the input file cannot be opened")
+
+m("c14-quadratic-duplicate-key-scan", "C14", 1, [("src/gm2_slha_io.cpp",
+   "   for (const auto& line : block) {\n      if (line.is_data_line() && line.size() >= 2) {\n         const auto key = convert_to<int>(line[0]);\n         const auto value = convert_to<double>(line[1]);\n         processor(key, value);\n      }\n   }\n}",
+   "   for (const auto& line : block) {\n      if (line.is_data_line() && line.size() >= 2) {\n         const auto key = convert_to<int>(line[0]);\n         const auto value = convert_to<double>(line[1]);\n"
+   "         // only the last entry with a given key counts: skip this one if the key appears again below\n         bool overridden = false;\n         for (const auto& other : block) {\n            if (&other > &line && other.is_data_line() && other.size() >= 2 && convert_to<int>(other[0]) == key) { overridden = true; }\n         }\n"
+   "         if (!overridden) { processor(key, value); }\n      }\n   }\n}")],
+  "quadratic duplicate-key scan in read_block: a block with thousands of entries (64 KiB of repeated lines) exceeds the time budget by orders of magnitude while every shipped file is as fast as before")
